@@ -224,7 +224,7 @@ func (m *model) measure(s, e int) (lenient, strict fixed.Int26_6) {
 		lastG = m.endG0[e]
 	}
 	var trail fixed.Int26_6
-	if lastG != nil && lastRun.Direction == m.b.cfg.Direction {
+	if lastG != nil && sameProgression(lastRun.Direction, m.b.cfg.Direction) {
 		if gIsSpace(lastG, vertical) {
 			trail = gAdv(lastG, vertical)
 		} else {
@@ -257,7 +257,7 @@ func (m *model) measure(s, e int) (lenient, strict fixed.Int26_6) {
 		}
 		if firstG != nil {
 			d := m.b.trueStartLS(firstG)
-			if firstG == lastG && gIsSpace(lastG, vertical) && lastRun.Direction == m.b.cfg.Direction {
+			if firstG == lastG && gIsSpace(lastG, vertical) && sameProgression(lastRun.Direction, m.b.cfg.Direction) {
 				d = 0 // the whole glyph is already discounted
 			}
 			if d > 0 {
@@ -279,7 +279,7 @@ func (m *model) measureBeforeTruncator(s, e int) fixed.Int26_6 {
 	base := m.cum[e] - m.cum[s]
 	lastRun := &m.b.runs[m.runOf[e-1]]
 	vertical := lastRun.Direction.IsVertical()
-	if lastRun.Direction == m.b.cfg.Direction && !m.b.cfg.DisableTrailingWhitespaceTrim {
+	if sameProgression(lastRun.Direction, m.b.cfg.Direction) && !m.b.cfg.DisableTrailingWhitespaceTrim {
 		lastG := m.endG1[e]
 		if lastRun.Direction.Progression() == di.TowardTopLeft {
 			lastG = m.endG0[e]
@@ -355,3 +355,8 @@ func (m *model) hardSegments() (segs [][2]int, multiRun bool) {
 	}
 	return
 }
+
+// sameProgression: a run is "in the paragraph direction" when the progressions agree; the vertical
+// orientation flags (upright / sideways / unset) of runs and paragraph usually differ and do not
+// matter (advanceSpaceAware compares the progressions only).
+func sameProgression(a, b di.Direction) bool { return a.Progression() == b.Progression() }
